@@ -494,6 +494,117 @@ def run_c10(ctx: kernel.Ctx, case: Dict[str, Any]) -> None:
     ctx.nontrivial = stored > 0 and any(any(o["done"]) for o in case["ops"])
 
 
+def gen_c10_loop(rng: random.Random, tier: str) -> Dict[str, Any]:
+    return {"engine": "bufsim", "prop": "C10", "mode": "loop", "n_step": rng.choice([2, 3, 3, 4]), "gamma": rng.choice([0.99, 0.9, 0.5]), "num_envs": rng.choice([1, 2, 3, 4]),
+            "capacity": rng.choice([16, 32, 64]), "pop": rng.choice([1, 2, 3]), "gens": rng.choice([1, 2]), "per": rng.random() < 0.4, "len_seed": rng.randrange(1000),
+            "max_len": rng.choice([1, 2, 3, 5, 9]), "ending": rng.choice(["term", "trunc", "mixed"]), "learn_step": rng.choice([1, 2, 5]), "seed": rng.getrandbits(31),
+            "ops": [{"op": "train"}]}
+
+
+def run_c10_loop(ctx: kernel.Ctx, case: Dict[str, Any]) -> None:
+    """The real train_off_policy with n_step=True on a scripted vector environment: every row the loop stored in the n-step buffer is
+    checked against the environment's ground-truth log; a window may not span a terminal step, an env.reset() of the loop or an evaluation phase."""
+    import contextlib
+    import io as _io
+
+    import agilerl.training.train_off_policy as top
+    from agilerl.components.replay_buffer import MultiStepReplayBuffer, PrioritizedReplayBuffer, ReplayBuffer
+    from agilerl.utils.utils import create_population
+    from sim.trainsim import Tracker, _GymTracked, instrumented
+
+    n, gamma, E, cap = case["n_step"], case["gamma"], case["num_envs"], case["capacity"]
+    loc = {"buffer": "MultiStepReplayBuffer", "mode": "train_off_policy"}
+    tr = Tracker()
+    spec = {"obs_kind": "vector", "act_kind": "discrete", "len_seed": case["len_seed"], "max_len": case["max_len"], "ending": case["ending"]}
+    env = _GymTracked(spec, E, tr)
+    seed_all(case["seed"])
+    INIT_HP = {"BATCH_SIZE": 4, "LR": 1e-3, "LEARN_STEP": case["learn_step"], "GAMMA": gamma, "TAU": 0.1, "N_STEP": n, "NUM_ATOMS": 11, "V_MIN": -5.0, "V_MAX": 5.0}
+    pop = create_population("Rainbow DQN", env.single_observation_space, env.single_action_space, {"latent_dim": 16, "head_config": {"hidden_size": [16]}}, INIT_HP,
+                            population_size=case["pop"], num_envs=E)
+    memory = PrioritizedReplayBuffer(cap, alpha=0.6) if case["per"] else ReplayBuffer(cap)
+    n_mem = MultiStepReplayBuffer(cap, n_step=n, gamma=gamma)
+    evo_steps = max(E, case["learn_step"]) * 4
+    max_steps = (evo_steps // E) * E * case["gens"]
+    saved_time = top.time
+    top.time = tr.clock
+    try:
+        with instrumented(tr, [type(pop[0])]), contextlib.redirect_stdout(_io.StringIO()), contextlib.redirect_stderr(_io.StringIO()):
+            top.train_off_policy(env, "script", "Rainbow DQN", pop, memory, max_steps=max_steps, evo_steps=evo_steps, eval_steps=2, eval_loop=1, n_step=True, per=case["per"],
+                                 n_step_memory=n_mem, tournament=None, mutation=None, wb=False, verbose=False)
+    finally:
+        top.time = saved_time
+    ctx.log("world", "trained", {"stored": len(n_mem), "log": len(env.log)})
+    # ---- ground truth: per sub-environment, the steps in order with a segment id that changes at every reset / phase change
+    per_env: Dict[int, List[Dict[str, Any]]] = {e: [] for e in range(E)}
+    seg = 0
+    last_phase = None
+    for rec in env.log:
+        if rec["kind"] == "reset" or rec["phase"] != last_phase:
+            seg += 1
+        last_phase = rec["phase"]
+        if rec["kind"] == "step":
+            per_env[rec["env"]].append(dict(rec, seg=seg))
+    index = {e: {x["gid"]: i for i, x in enumerate(per_env[e])} for e in range(E)}
+    if len(n_mem) != len(memory):
+        ctx.report("C10/misaligned", f"n-step buffer holds {len(n_mem)} rows, 1-step buffer {len(memory)}", **loc)
+    rows = n_mem.storage[: len(n_mem)]
+    rows1 = memory.storage[: len(memory)]
+    og = [int(round(float(x))) for x in rows["obs"][:, 0].tolist()]
+    og1 = [int(round(float(x))) for x in rows1["obs"][:, 0].tolist()]
+    if og != og1[: len(og)]:
+        ctx.report("C10/misaligned", "rows with the same index describe different observations in the n-step and the 1-step buffer", **loc)
+    n_checked = 0
+    for i, g in enumerate(og):
+        e = g // 100000
+        k = index.get(e, {}).get(g)
+        if k is None or per_env[e][k]["phase"] != "train":
+            ctx.report("C10/start_not_observed_pair", f"stored row {i} starts at observation id {g}, which is not a training step of sub-env {e}", **loc)
+            break
+        steps = per_env[e]
+        m_star = 0
+        for j in range(n):
+            if k + j >= len(steps) or steps[k + j]["seg"] != steps[k]["seg"]:
+                break
+            m_star = j + 1
+            if steps[k + j]["end"]:
+                break
+        rew, dn, ng = float(rows["reward"][i].reshape(-1)[0]), float(rows["done"][i].reshape(-1)[0]), int(round(float(rows["next_obs"][i, 0])))
+        ok = False
+        for m in range(1, m_star + 1):
+            last = steps[k + m - 1]
+            others_end = any(per_env[o][index[o].get(last["gid"] - e * 100000 + o * 100000, -1)]["end"] for o in range(E)
+                             if o != e and (last["gid"] - e * 100000 + o * 100000) in index[o])
+            if not (m == m_star or others_end):
+                continue
+            want = sum((gamma ** j) * steps[k + j]["reward"] for j in range(m))
+            if abs(rew - want) <= 1e-4 * (1 + abs(want)) and ng == last["gid"] + 1 and dn == float(last["end"]):
+                ok = True
+                break
+        n_checked += 1
+        if not ok:
+            spans = (k + n - 1 < len(steps) and steps[k + n - 1]["seg"] != steps[k]["seg"]) or k + n - 1 >= len(steps)
+            ended = [steps[k + j] for j in range(min(m_star, n)) if steps[k + j]["end"]]
+            if ended and not ended[0]["terminated"]:
+                # the episode was *truncated* inside the window: the loop passes only the termination flag as `done`
+                cls = "C10/crosses_truncation_boundary"
+                ctx.probe("truncation_inside_window")
+            elif spans and not ended:
+                cls = "C10/crosses_reset_between_agents"
+            elif ended:
+                cls = "C10/crosses_episode_boundary"
+            else:
+                cls = "C10/nstep_value"
+            ctx.report(cls, f"stored row {i} (sub-env {e}, training step {k}, n={n}, gamma={gamma}): reward {rew:.5f}, next_obs id {ng}, done {dn}; the same uninterrupted "
+                            f"episode offers {m_star} step(s) from there (rewards {[round(steps[k + j]['reward'], 3) for j in range(m_star)]}); the window spans an "
+                            f"env.reset() / evaluation phase of the loop: {bool(spans)}", population=case["pop"] > 1 or case["gens"] > 1, **loc)
+            if cls != "C10/crosses_truncation_boundary":
+                break
+    if case["pop"] > 1 or case["gens"] > 1:
+        ctx.probe("loop_resets_env_between_rollouts")
+    ctx.nontrivial = n_checked >= 2
+    ctx.state(("loop", n, E, case["pop"], case["gens"], case["max_len"]))
+
+
 # --------------------------------------------------------------------------------------------------
 # C11  prioritised replay
 # --------------------------------------------------------------------------------------------------
@@ -745,6 +856,8 @@ def run_c11(ctx: kernel.Ctx, case: Dict[str, Any]) -> None:
 # engine interface
 # --------------------------------------------------------------------------------------------------
 def gen(prop: str, rng: random.Random, tier: str) -> Dict[str, Any]:
+    if prop == "C10" and rng.random() < 0.06:
+        return gen_c10_loop(rng, tier)
     return {"C09": gen_c09, "C10": gen_c10, "C11": gen_c11}[prop](rng, tier)
 
 
@@ -754,6 +867,8 @@ def run(prop: str, case: Dict[str, Any]) -> Dict[str, Any]:
     torch.set_num_threads(1)
     ctx = kernel.Ctx(prop, case)
     fn = {"C09": run_c09, "C10": run_c10, "C11": run_c11}[prop]
+    if case.get("mode") == "loop":
+        fn = run_c10_loop
     try:
         fn(ctx, case)
     except kernel.HarnessError:
